@@ -43,8 +43,9 @@ class Ctx:
     def __init__(self, forced=()):
         self.forced = list(forced)
         self.taken = []  # list of bool decisions (aligned with forced)
-        self.pc = []  # z3 Bools assumed on this path (decisions + requires)
-        self.axioms = []  # defining axioms of fresh symbols (sqrt, trig, stubs)
+        self.pc = _Facts(self)  # z3 Bools assumed on this path (decisions + requires)
+        self.axioms = _Facts(self)  # defining axioms of fresh symbols (sqrt, trig, stubs)
+        self._solver = None  # incremental solver holding pc + axioms (feasibility checks)
         self.counter = 0
         self.alternatives = []  # decision prefixes still to explore
         self.trusted = set()  # assumption scan
@@ -69,6 +70,29 @@ class Ctx:
         return self.pc + self.axioms
 
 
+class _Facts(list):
+    """list of facts that mirrors every append into the context's incremental solver"""
+
+    def __init__(self, owner):
+        super().__init__()
+        self._owner = owner
+
+    def append(self, t):
+        super().append(t)
+        sv = self._owner.__dict__.get("_solver")
+        if sv is not None:
+            sv.add(t)
+
+
+def _solver_of(c):
+    if c._solver is None:
+        sv = z3.Solver()
+        sv.add(*c.pc)
+        sv.add(*c.axioms)
+        c._solver = sv
+    return c._solver
+
+
 CUR: Ctx | None = None
 ARRAY_FALLBACK = None  # set by symnp: (sequence, elementwise fn) -> SArr
 FEAS_TIMEOUT_MS = 3000
@@ -89,28 +113,32 @@ LINEAR_ABSTRACTION = None  # set by pyvc.engine: terms -> (abstracted terms, #pr
 
 def _feasible(c: Ctx, extra):
     t0 = time.time()
-    if LINEAR_ABSTRACTION is not None and (c.axioms or len(c.pc) > 8):
-        # a contradiction that is already visible when every product is an opaque value
-        # (sound over-approximation) is found without the non-linear machinery
-        try:
-            ab, nprod = LINEAR_ABSTRACTION(list(c.pc) + list(c.axioms) + [extra], som=False)
-            if nprod:
-                s0 = z3.Solver()
-                s0.set("timeout", 1000)
-                s0.add(*ab)
-                if s0.check() == z3.unsat:
-                    c.feas_time += time.time() - t0
-                    return False
-        except Exception:
-            pass
-    s = z3.Solver()
-    s.set("timeout", FEAS_TIMEOUT_MS)
-    s.add(*c.pc)
-    s.add(*c.axioms)
-    s.add(extra)
-    r = s.check()
-    c.feas_time += time.time() - t0
-    return r != z3.unsat  # unknown => explore (sound: more paths, never fewer)
+    s = _solver_of(c)
+    s.push()
+    try:
+        s.add(extra)
+        s.set("timeout", 400)
+        r = s.check()
+        if r == z3.unknown:
+            if LINEAR_ABSTRACTION is not None:
+                # a contradiction that is already visible when every product is an opaque
+                # value (sound over-approximation) is found without non-linear machinery
+                try:
+                    ab, nprod = LINEAR_ABSTRACTION(list(c.pc) + list(c.axioms) + [extra], som=False)
+                    if nprod:
+                        s0 = z3.Solver()
+                        s0.set("timeout", 1500)
+                        s0.add(*ab)
+                        if s0.check() == z3.unsat:
+                            return False
+                except Exception:
+                    pass
+            s.set("timeout", FEAS_TIMEOUT_MS)
+            r = s.check()
+        return r != z3.unsat  # unknown => explore (sound: more paths, never fewer)
+    finally:
+        s.pop()
+        c.feas_time += time.time() - t0
 
 
 def decide(term) -> bool:
